@@ -57,8 +57,15 @@ class Ctx:
             statements of the anchor into a private helper does not hide them from the rule """
         self.functions.add(f"{rel}::{qual}")
         func = self.repo.func(rel, qual)
-        if not inline:
-            return func
+        if inline is False:
+            # default: inline only private helpers that did not exist on the reference tree (asa/reference_helpers.json):
+            # a helper the rules have never seen is taken to be the product of an extract-function refactoring
+            known = set(_reference_helpers().get(rel, []))
+            fresh = {q.split(".")[-1] for q, _ in self.repo.functions(rel)
+                     if q.split(".")[-1].startswith("_") and not q.split(".")[-1].startswith("__") and q not in known}
+            if not fresh:
+                return func
+            inline = fresh
         key = (rel, qual, True if inline is True else tuple(sorted(inline)))
         cache = self.__dict__.setdefault("_inline_cache", {})
         if key not in cache:
@@ -66,7 +73,7 @@ class Ctx:
             new, names = inline_function(self.repo, rel, qual, func, only=None if inline is True else set(inline))
             for name in names:
                 self.functions.add(f"{rel}::{name}")
-            cache[key] = new
+            cache[key] = new if names else func
         return cache[key]
 
     def ob(self, rule: str, rel: str, node: Any, function: str, thing: str, ok: Optional[bool],
@@ -103,6 +110,21 @@ class Ctx:
             first = cannot[0]
             raise AnalysisError(f"{first.file}:{first.line} {first.function} {first.rule}: cannot analyse: "
                                 f"{first.what} {first.detail}".strip())
+
+
+_REFERENCE_HELPERS: Optional[Dict[str, List[str]]] = None
+
+
+def _reference_helpers() -> Dict[str, List[str]]:
+    global _REFERENCE_HELPERS  # pylint: disable=global-statement
+    if _REFERENCE_HELPERS is None:
+        path = os.path.join(VERIF, "asa", "reference_helpers.json")
+        try:
+            with open(path, encoding="utf-8") as handle:
+                _REFERENCE_HELPERS = json.load(handle)
+        except (OSError, ValueError):
+            _REFERENCE_HELPERS = {}
+    return _REFERENCE_HELPERS
 
 
 def load_known(path: Optional[str] = None) -> List[Dict[str, Any]]:
